@@ -482,7 +482,7 @@ func detailsAnnotation(u *v1beta1.Usage) string {
 func RespectOwnerRefs() xpresource.ApplyOption {
 	return func(_ context.Context, current, desired runtime.Object) error {
 		cu, ok := current.(*composed.Unstructured)
-		if !ok || cu.GetObjectKind().GroupVersionKind() != v1beta1.UsageGroupVersionKind {
+		if !ok || cu.GetObjectKind().GroupVersionKind().GroupKind() != v1beta1.UsageGroupVersionKind.GroupKind() {
 			return nil
 		}
 		// This is a Usage resource, so we need to respect existing owner
